@@ -1,6 +1,7 @@
 package interpreter
 
 import (
+	"math/big"
 	"slices"
 
 	"github.com/formancehq/numscript/internal/parser"
@@ -91,7 +92,20 @@ func (st *programState) runBalancesQuery() error {
 	// reset batch query
 	st.CurrentBalanceQuery = BalanceQuery{}
 
-	st.CachedBalances = balances
+	// merge the fetched balances into the cache: balances fetched by previous queries are kept,
+	// and the numbers are copied so that the store's own data is never written to
+	for accountName, accountBalances := range balances {
+		cachedAccountBalances := defaultMapGet(st.CachedBalances, accountName, func() AccountBalance {
+			return AccountBalance{}
+		})
+
+		for asset, amount := range accountBalances {
+			if _, isAlreadyCached := cachedAccountBalances[asset]; isAlreadyCached || amount == nil {
+				continue
+			}
+			cachedAccountBalances[asset] = new(big.Int).Set(amount)
+		}
+	}
 	return nil
 }
 
